@@ -26,6 +26,22 @@ impl ValidatorParser {
         for attr in attrs {
             if attr.path().is_ident("validate") {
                 found_validator = true;
+
+                // Parse the attribute structurally first: this keeps string literals, negative
+                // numbers and nested parentheses intact. Only attributes syn cannot walk this way
+                // fall back to scanning the token string.
+                if let Some(parsed) = Self::parse_structured(attr) {
+                    validator_attrs.email |= parsed.email;
+                    validator_attrs.url |= parsed.url;
+                    if parsed.length.is_some() {
+                        validator_attrs.length = parsed.length;
+                    }
+                    if parsed.range.is_some() {
+                        validator_attrs.range = parsed.range;
+                    }
+                    continue;
+                }
+
                 // Parse the tokens inside the validate attribute
                 if let Ok(tokens) = syn::parse2::<syn::MetaList>(attr.meta.to_token_stream()) {
                     // Convert tokens to string and do basic parsing for now
@@ -56,6 +72,125 @@ impl ValidatorParser {
             Some(validator_attrs)
         } else {
             None
+        }
+    }
+
+    /// Walk `#[validate(...)]` with syn's nested-meta parser.
+    /// Returns `None` when the attribute is not a list or uses syntax that cannot be walked.
+    fn parse_structured(attr: &Attribute) -> Option<ValidatorAttributes> {
+        if !matches!(attr.meta, syn::Meta::List(_)) {
+            return None;
+        }
+
+        let mut result = ValidatorAttributes {
+            length: None,
+            range: None,
+            email: false,
+            url: false,
+            custom_message: None,
+        };
+
+        attr.parse_nested_meta(|meta| {
+            if meta.path.is_ident("email") {
+                result.email = true;
+                Self::skip_meta_value(&meta)
+            } else if meta.path.is_ident("url") {
+                result.url = true;
+                Self::skip_meta_value(&meta)
+            } else if meta.path.is_ident("length") {
+                let (min, max, message) = Self::parse_bounds(&meta)?;
+                result.length = Some(LengthConstraint {
+                    min: min.as_ref().and_then(Self::expr_to_u64),
+                    max: max.as_ref().and_then(Self::expr_to_u64),
+                    message,
+                });
+                Ok(())
+            } else if meta.path.is_ident("range") {
+                let (min, max, message) = Self::parse_bounds(&meta)?;
+                result.range = Some(RangeConstraint {
+                    min: min.as_ref().and_then(Self::expr_to_f64),
+                    max: max.as_ref().and_then(Self::expr_to_f64),
+                    message,
+                });
+                Ok(())
+            } else {
+                // A validator this generator does not model (custom, regex, nested, ...)
+                Self::skip_meta_value(&meta)
+            }
+        })
+        .ok()?;
+
+        Some(result)
+    }
+
+    /// Parse `(min = .., max = .., message = "..")` of a length or range validator
+    fn parse_bounds(
+        meta: &syn::meta::ParseNestedMeta,
+    ) -> syn::Result<(Option<syn::Expr>, Option<syn::Expr>, Option<String>)> {
+        let mut min = None;
+        let mut max = None;
+        let mut message = None;
+
+        if meta.input.peek(syn::token::Paren) {
+            meta.parse_nested_meta(|inner| {
+                if inner.path.is_ident("min") {
+                    min = Some(inner.value()?.parse::<syn::Expr>()?);
+                    Ok(())
+                } else if inner.path.is_ident("max") {
+                    max = Some(inner.value()?.parse::<syn::Expr>()?);
+                    Ok(())
+                } else if inner.path.is_ident("message") {
+                    message = Some(inner.value()?.parse::<syn::LitStr>()?.value());
+                    Ok(())
+                } else {
+                    Self::skip_meta_value(&inner)
+                }
+            })?;
+        } else {
+            Self::skip_meta_value(meta)?;
+        }
+
+        Ok((min, max, message))
+    }
+
+    /// Consume an optional `= value` or `(...)` following a meta path
+    fn skip_meta_value(meta: &syn::meta::ParseNestedMeta) -> syn::Result<()> {
+        if meta.input.peek(syn::Token![=]) {
+            meta.value()?.parse::<syn::Expr>()?;
+        } else if meta.input.peek(syn::token::Paren) {
+            let content;
+            syn::parenthesized!(content in meta.input);
+            content.parse::<proc_macro2::TokenStream>()?;
+        }
+        Ok(())
+    }
+
+    /// Numeric value of a literal bound, including negated and parenthesized literals
+    fn expr_to_f64(expr: &syn::Expr) -> Option<f64> {
+        match expr {
+            syn::Expr::Lit(lit) => match &lit.lit {
+                syn::Lit::Int(i) => i.base10_digits().parse::<f64>().ok(),
+                syn::Lit::Float(f) => f.base10_digits().parse::<f64>().ok(),
+                _ => None,
+            },
+            syn::Expr::Unary(unary) if matches!(unary.op, syn::UnOp::Neg(_)) => {
+                Self::expr_to_f64(&unary.expr).map(|v| -v)
+            }
+            syn::Expr::Paren(paren) => Self::expr_to_f64(&paren.expr),
+            syn::Expr::Group(group) => Self::expr_to_f64(&group.expr),
+            _ => None,
+        }
+    }
+
+    fn expr_to_u64(expr: &syn::Expr) -> Option<u64> {
+        match expr {
+            syn::Expr::Lit(lit) => match &lit.lit {
+                syn::Lit::Int(i) => i.base10_parse::<u64>().ok(),
+                _ => None,
+            },
+            syn::Expr::Paren(paren) => Self::expr_to_u64(&paren.expr),
+            syn::Expr::Group(group) => Self::expr_to_u64(&group.expr),
+            _ => None,
         }
     }
 
@@ -197,7 +332,7 @@ impl ValidatorParser {
                     if quote_char == '"' || quote_char == '\'' {
                         // Find the closing quote, handling escaped quotes
                         let rest = &after_eq[1..];
-                        let chars = rest.chars().enumerate();
+                        let chars = rest.char_indices();
                         let mut escaped = false;
 
                         for (i, ch) in chars {
